@@ -23,7 +23,7 @@ ASSUMPTIONS = [cc.MODEL_NOTE, "the stage correspondence of C06/C07 (apply, reduc
 WIDE_TEXT_RULE = (
     "; plus the wide-text sweep: a 103-character text with a 2- or 4-byte character at every position in turn, and "
     "runs of 2-byte characters of every length up to 80 bytes, where an address, a datum, a withdrawal credential or a "
-    "metadata value is expected"
+    "metadata value is expected; resolution-level cases over stores of 1-2 UTxOs and wallets of 49..300 UTxOs at one address"
 )
 
 
